@@ -116,3 +116,54 @@ Proof.
   split; [reflexivity|]. intros a b H _ _. cbn in H.
   repeat (destruct H as [H|H]; [inversion H; subst; cbn; lia|]). contradiction.
 Qed.
+
+(* ------------------------------------------------------------------------------------------
+   Well-formed remove_nodes_connections and remove_previous_connections calls succeed.
+   [wf2] = [wf_state] plus: the keys of `successors` are unique, and a node marked for removal still
+   has its `predecessors` entry.  Preconditions: Spec.Graph.pre_opb (distinct nodes that are marked
+   for removal; no remaining predecessor for remove_nodes_connections, no remaining successor for
+   remove_previous_connections).  Each theorem covers exactly the operation it names;
+   remove_successors_nodes is NOT covered. *)
+From Pydra Require Import Proofs.GraphWf2.
+
+Theorem C37_wellformed_remove_nodes_connections_succeeds :
+  forall g l, wf2 g -> inv2 g -> pre_opb g (RemoveNodesConnections l) = true ->
+    exists g', step g (RemoveNodesConnections l) = Ok g' /\ wf2 g' /\ inv2 g' /\ sorted_ok g' /\ sorted_ok_preds g'.
+Proof. intros g l W I P. exact (wellformed_removal_step g (RemoveNodesConnections l) W I eq_refl P). Qed.
+Print Assumptions C37_wellformed_remove_nodes_connections_succeeds.
+
+Theorem C37_wellformed_remove_previous_connections_succeeds :
+  forall g l, wf2 g -> inv2 g -> pre_opb g (RemovePreviousConnections l) = true ->
+    exists g', step g (RemovePreviousConnections l) = Ok g' /\ wf2 g' /\ inv2 g' /\ sorted_ok g' /\ sorted_ok_preds g'.
+Proof. intros g l W I P. exact (wellformed_removal_step g (RemovePreviousConnections l) W I eq_refl P). Qed.
+Print Assumptions C37_wellformed_remove_previous_connections_succeeds.
+
+(* remove_nodes again, now keeping the stronger [wf2] so that the three operations compose *)
+Theorem C37_wellformed_remove_nodes_keeps_wf2 :
+  forall g l c, wf2 g -> inv2 g -> pre_opb g (RemoveNodes l c) = true ->
+    exists g', step g (RemoveNodes l c) = Ok g' /\ wf2 g' /\ inv2 g' /\ sorted_ok g' /\ sorted_ok_preds g'.
+Proof. intros g l c W I P. exact (wellformed_removal_step g (RemoveNodes l c) W I eq_refl P). Qed.
+Print Assumptions C37_wellformed_remove_nodes_keeps_wf2.
+
+(* C37_wellformed_removals_never_raise extended to histories mixing the three operations:
+   constructor with acyclic edges, then any list of remove_nodes / remove_nodes_connections /
+   remove_previous_connections calls each meeting its precondition in the state it is made in
+   ([history_ok], computable) — never raises, ends with a valid order. *)
+Theorem C37_wellformed_removal_history_never_raises :
+  forall ns es g0 ops,
+    init ns es = Ok g0 -> acyclic ns es -> history_ok g0 ops = true ->
+    exists g, run g0 ops = Ok g /\ sorted_ok g /\ sorted_ok_preds g.
+Proof. exact wellformed_removal_history. Qed.
+Print Assumptions C37_wellformed_removal_history_never_raises.
+
+(* met by the protocol of test_graph.py on the diamond: remove + disconnect, layer by layer *)
+Example C37_wellformed_history_example :
+  exists g0, init [0; 1; 2; 3] [(0, 1); (0, 2); (1, 3); (2, 3)] = Ok g0 /\
+    history_ok g0 [RemoveNodes [0] true; RemoveNodesConnections [0];
+                   RemoveNodes [1; 2] true; RemoveNodesConnections [2; 1];
+                   RemoveNodes [3] false; RemovePreviousConnections [3]] = true /\
+    run g0 [RemoveNodes [0] true; RemoveNodesConnections [0];
+            RemoveNodes [1; 2] true; RemoveNodesConnections [2; 1];
+            RemoveNodes [3] false; RemovePreviousConnections [3]]
+      = Ok (mkG [] [] [] [] None []).
+Proof. eexists. split; [vm_compute; reflexivity|]. split; vm_compute; reflexivity. Qed.
